@@ -630,6 +630,21 @@ class Boom(Exception):
     """the injected exception (deliberately not a TypeError/ValueError/RuntimeError)"""
 
 
+class BoomTypeError(Boom, TypeError):
+    """the injected exception, of a built-in type native code is tempted to catch and reinterpret"""
+
+
+class BoomValueError(Boom, ValueError):
+    pass
+
+
+class BoomRuntimeError(Boom, RuntimeError):
+    pass
+
+
+BOOM_CLASSES = (Boom, BoomTypeError, BoomValueError, BoomRuntimeError)
+
+
 class Ticker:
     """counts invocations of user callbacks; raises (or calls a hook) at the k-th one"""
 
@@ -642,13 +657,15 @@ class Ticker:
         self.exc = None
         self.kinds = []
         self.hook = None
+        self.exc_cls = Boom
 
-    def arm(self, k=None, hook=None):
+    def arm(self, k=None, hook=None, exc_cls=None):
         self.count = 0
         self.k = k
         self.exc = None
         self.kinds = []
         self.hook = hook
+        self.exc_cls = exc_cls or Boom
 
     def tick(self, kind):
         self.count += 1
@@ -656,7 +673,7 @@ class Ticker:
         if self.hook is not None:
             self.hook(self.count, kind)
         if self.k is not None and self.count == self.k:
-            self.exc = Boom(f'{kind}#{self.k}')
+            self.exc = getattr(self, 'exc_cls', Boom)(f'{kind}#{self.k}')
             raise self.exc
 
 
